@@ -536,8 +536,8 @@ class ExpressionParser:
         try:
             factory = self.factories[prefix]
         except KeyError as exc:
-            raise LookupError(
-                "Unknown expression type: %s." % str(exc)
+            raise ExpressionError(
+                "Unknown expression type: %s." % str(exc), m.string
             )
 
         return factory(expression)
